@@ -20,7 +20,10 @@ import (
 	beaconState "github.com/oasisprotocol/oasis-core/go/consensus/cometbft/apps/beacon/state"
 	secretsState "github.com/oasisprotocol/oasis-core/go/consensus/cometbft/apps/keymanager/secrets/state"
 	registryState "github.com/oasisprotocol/oasis-core/go/consensus/cometbft/apps/registry/state"
+	"github.com/oasisprotocol/oasis-core/go/common/crypto/hash"
+	churpState "github.com/oasisprotocol/oasis-core/go/consensus/cometbft/apps/keymanager/churp/state"
 	keymanager "github.com/oasisprotocol/oasis-core/go/keymanager/api"
+	"github.com/oasisprotocol/oasis-core/go/keymanager/churp"
 	"github.com/oasisprotocol/oasis-core/go/keymanager/secrets"
 	registry "github.com/oasisprotocol/oasis-core/go/registry/api"
 
@@ -42,6 +45,7 @@ func (s kmSpec) String() string {
 }
 
 type kmView struct {
+	churp  *churp.Status // CHURP instance 1, if it exists
 	status *secrets.Status
 	master *secrets.SignedEncryptedMasterSecret
 	epoch  beacon.EpochTime // epoch of the block being built
@@ -61,6 +65,9 @@ func kmRead(n *chain.Node) *kmView {
 	}
 	if ms, err := ss.MasterSecret(chain.Ctx, chain.KMRuntimeID()); err == nil {
 		v.master = ms
+	}
+	if cs, err := churpState.NewImmutableState(t).Status(chain.Ctx, chain.KMRuntimeID(), 1); err == nil {
+		v.churp = cs
 	}
 	bs := beaconState.NewImmutableState(t)
 	v.epoch, _, _ = bs.GetEpoch(chain.Ctx)
@@ -206,6 +213,101 @@ func (b *bundle) kmTxs(s *kmSpec) []txT {
 			}
 			out = append(out, txT{Name: "km-ephemeral-secret", Signer: txSigner, Method: secrets.MethodPublishEphemeralSecret, Body: secrets.SignedEncryptedEphemeralSecret{Secret: sec, Signature: sig.Signature}})
 		}
+	case "churp-create", "churp-update":
+		ident := churp.Identity{ID: 1, RuntimeID: chain.KMRuntimeID()}
+		txSigner := signature.Signer(k.Entities[0])
+		pol := churp.SignedPolicySGX{Policy: churp.PolicySGX{Identity: ident}}
+		if v.churp != nil {
+			pol.Policy.Serial = v.churp.Policy.Policy.Serial + 1
+		}
+		switch s.Var {
+		case "by-e1":
+			txSigner = k.Entities[1]
+		case "policy-other-id":
+			pol.Policy.ID = 2
+		case "policy-serial-7":
+			pol.Policy.Serial = 7
+		}
+		_ = pol.Sign(keymanager.TestSigners[1:])
+		if s.Var == "policy-bad-sig" {
+			pol.Policy.MayJoin = nil
+			pol.Signatures[0].Signature[0] ^= 1
+		}
+		if s.Kind == "churp-create" {
+			req := churp.CreateRequest{Identity: ident, Threshold: 1, ExtraShares: 0, HandoffInterval: 1, Policy: pol}
+			switch s.Var {
+			case "suite-1":
+				req.SuiteID = 1
+			case "threshold-200":
+				req.Threshold = 200
+			case "no-handoffs":
+				req.HandoffInterval = 0
+			case "other-runtime":
+				req.RuntimeID = chain.RuntimeID()
+			case "threshold-3":
+				req.Threshold = 3 // more applicants needed than there are nodes
+			}
+			out = append(out, txT{Name: "churp-create", Signer: txSigner, Method: churp.MethodCreate, Body: req})
+		} else {
+			req := churp.UpdateRequest{Identity: ident}
+			one, zero, two := uint8(1), beacon.EpochTime(0), beacon.EpochTime(2)
+			switch s.Var {
+			case "", "by-e1":
+				req.HandoffInterval = &two
+			case "disable":
+				req.HandoffInterval = &zero
+			case "extra-shares":
+				req.ExtraShares = &one
+			case "empty":
+			case "unknown-id":
+				req.ID = 9
+				req.ExtraShares = &one
+			default: // policy variants
+				req.Policy = &pol
+			}
+			out = append(out, txT{Name: "churp-update", Signer: txSigner, Method: churp.MethodUpdate, Body: req})
+		}
+	case "churp-apply", "churp-confirm":
+		ident := churp.Identity{ID: 1, RuntimeID: chain.KMRuntimeID()}
+		for _, i := range s.Who {
+			txSigner := signature.Signer(k.Nodes[i].NodeSigner)
+			sigSigner := signature.Signer(rak)
+			ep := v.epoch + 1
+			if s.Kind == "churp-confirm" {
+				ep = v.epoch
+			}
+			if v.churp != nil && s.Var != "wrong-epoch" {
+				ep = v.churp.NextHandoff
+			}
+			cs := hash.NewFromBytes([]byte(fmt.Sprintf("verif churp matrix %d", ep)))
+			switch s.Var {
+			case "wrong-epoch":
+				ep += 3
+			case "bad-sig":
+				sigSigner = keymanager.TestSigners[3]
+			case "by-entity":
+				txSigner = k.Entities[i%3]
+			case "other-checksum":
+				cs = hash.NewFromBytes([]byte(fmt.Sprintf("verif other matrix %d", i)))
+			case "unknown-id":
+				ident.ID = 9
+			}
+			if s.Kind == "churp-apply" {
+				ar := churp.ApplicationRequest{Identity: ident, Epoch: ep, Checksum: cs}
+				sig, err := signature.Sign(sigSigner, churp.ApplicationRequestSignatureContext, cbor.Marshal(ar))
+				if err != nil {
+					panic(err)
+				}
+				out = append(out, txT{Name: fmt.Sprintf("churp-apply(n%d)", i), Signer: txSigner, Method: churp.MethodApply, Body: churp.SignedApplicationRequest{Application: ar, Signature: sig.Signature}})
+			} else {
+				cr := churp.ConfirmationRequest{Identity: ident, Epoch: ep, Checksum: cs}
+				sig, err := signature.Sign(sigSigner, churp.ConfirmationRequestSignatureContext, cbor.Marshal(cr))
+				if err != nil {
+					panic(err)
+				}
+				out = append(out, txT{Name: fmt.Sprintf("churp-confirm(n%d)", i), Signer: txSigner, Method: churp.MethodConfirm, Body: churp.SignedConfirmationRequest{Confirmation: cr, Signature: sig.Signature}})
+			}
+		}
 	case "policy":
 		serial := uint32(1)
 		cur := st.Policy
@@ -267,6 +369,22 @@ func kmLetters() []letter {
 	for _, v := range []string{"same-serial", "by-e1", "other-id", "no-rotation", "bad-sig"} {
 		specs = append(specs, kmSpec{Kind: "policy", Var: v})
 	}
+	// CHURP (key manager secret sharing): scheme 1 created / updated by the owner, handoff applications and
+	// confirmations by the nodes
+	specs = append(specs, kmSpec{Kind: "churp-create"}, kmSpec{Kind: "churp-update"}, kmSpec{Kind: "churp-apply", Who: all}, kmSpec{Kind: "churp-apply", Who: []int{0}},
+		kmSpec{Kind: "churp-confirm", Who: all}, kmSpec{Kind: "churp-confirm", Who: []int{0}}, kmSpec{Kind: "churp-confirm", Who: []int{1, 2}})
+	for _, v := range []string{"by-e1", "policy-other-id", "policy-serial-7", "policy-bad-sig", "suite-1", "threshold-200", "threshold-3", "no-handoffs", "other-runtime"} {
+		specs = append(specs, kmSpec{Kind: "churp-create", Var: v})
+	}
+	for _, v := range []string{"by-e1", "disable", "extra-shares", "empty", "unknown-id", "policy", "policy-serial-7", "policy-bad-sig"} {
+		specs = append(specs, kmSpec{Kind: "churp-update", Var: v})
+	}
+	for _, v := range []string{"wrong-epoch", "bad-sig", "by-entity", "unknown-id"} {
+		specs = append(specs, kmSpec{Kind: "churp-apply", Who: []int{1}, Var: v})
+	}
+	for _, v := range []string{"wrong-epoch", "bad-sig", "by-entity", "other-checksum"} {
+		specs = append(specs, kmSpec{Kind: "churp-confirm", Who: []int{1}, Var: v})
+	}
 	var ls []letter
 	for _, s := range specs {
 		s := s
@@ -281,11 +399,17 @@ func (w *world) kmMenu() []txT {
 	var ts []txT
 	for _, l := range kmLetters() {
 		s := *l.KM
-		if s.Kind == "reg" && len(s.Who) != 1 {
+		if (s.Kind == "reg" || s.Kind == "churp-apply" || s.Kind == "churp-confirm") && len(s.Who) != 1 {
 			continue
 		}
 		var signer signature.Signer
 		switch {
+		case (s.Kind == "churp-create" || s.Kind == "churp-update") && s.Var == "by-e1":
+			signer = w.keys.Entities[1]
+		case s.Kind == "churp-create" || s.Kind == "churp-update":
+			signer = w.keys.Entities[0]
+		case (s.Kind == "churp-apply" || s.Kind == "churp-confirm") && s.Var == "by-entity":
+			signer = w.keys.Entities[s.Who[0]%3]
 		case s.Kind == "policy" && s.Var == "by-e1":
 			signer = w.keys.Entities[1]
 		case s.Kind == "policy":
